@@ -98,6 +98,7 @@ func init() {
 				return true
 			})
 			host, urlf := "", ""
+			var reqFields []string
 			ast.Inspect(fd.Body, func(n ast.Node) bool {
 				cl, ok := n.(*ast.CompositeLit)
 				if !ok || x.src(cl.Type) != "http.Request" {
@@ -105,6 +106,7 @@ func init() {
 				}
 				for _, el := range cl.Elts {
 					if kv, ok := el.(*ast.KeyValueExpr); ok {
+						reqFields = append(reqFields, x.src(kv.Key))
 						switch x.src(kv.Key) {
 						case "Host":
 							host = x.src(kv.Value)
@@ -115,6 +117,8 @@ func init() {
 				}
 				return true
 			})
+			// the fields the synthetic request sets: no TLS, so C03 sees a plain request
+			x.defStrList("reqFields", reqFields)
 			x.defStr("reqHostInit", assigns[host])
 			x.defStr("reqURLInit", assigns[urlf])
 			var lookups []string
